@@ -42,7 +42,7 @@ def handleFault (l : Line) : List Verdict :=
       update := persistent && flabel == "SETXX-KEEPTTL session",
       del := persistent && flabel == "DEL session" }
     let plan : IdpPlan := if flabel.startsWith "IDP" then
-        (match fkind with | "idp4xx" => .clientErr | "idp4xx-html" => .clientErr | "idp4xx-empty" => .clientErr | "idpgarbage" => .broken | "idpgarbage-typed" => .broken | _ => if persistent then .serverErr else .ok secs)
+        (match fkind with | "idp4xx" => .clientErr | "idp4xx-html" => .clientErr | "idp4xx-empty" => .clientErr | "idpgarbage" => .broken | "idpgarbage-typed" => .broken | "idplost" => .broken | _ => if persistent then .serverErr else .ok secs)
       else .ok secs
     let cfg : Cfg := { mode := .standalone, forwardAuth := true }
     let st := toStoreSt pre
@@ -79,6 +79,7 @@ def handleFault (l : Line) : List Verdict :=
       (if fkind.startsWith "idp4xx" && contacted > 0 && (handler == "refresh" || handler == "fwdauth") && status != 401 then [("C11.rejected_refresh_still_auth", s!"{handler} answered {status} after a 4xx from the provider")] else []) ++
       (if transient && handler != "proxy" && status != cleanStatus then [("C11.transient_not_absorbed", s!"{handler}: {fcount} failure(s) of '{flabel}' changed the answer to {status}")] else []) ++
       (if transient && handler == "proxy" && !(fwd && wrote) then [("C11.transient_not_absorbed", s!"proxy: {fcount} failure(s) of '{flabel}': forwarded={fwd} token={upauth}")] else []) ++
+      (if fkind == "idplost" && contacted > 1 then [("C07.token_presented_twice.lost_response", s!"the refresh token was sent {contacted} times: a grant whose answer was lost in transit was re-sent (only a server-error ANSWER may be retried)")] else []) ++
       (if isLogout && persistent && flabel == "GET session" && successStatus then [("C11.logout_fault_success.lookup", s!"{handler} answered {status} although the session lookup failed")] else []) ++
       (if isLogout && persistent && flabel == "DEL session" && successStatus then [("C11.logout_fault_success.delete", s!"{handler} answered {status} although the delete failed")] else [])
     pure (verdictsOf diffs viol)
